@@ -46,11 +46,13 @@ type scenario struct {
 	Control uint16
 	When    string // idle | mid | storm
 	Storm   int
-	Seed    int64
+	// Decreasing: in a storm the later indications announce 0 ms
+	Decreasing bool
+	Seed       int64
 }
 
 func (s scenario) String() string {
-	return fmt.Sprintf("G=%d burst=%d pause=%v wait=%v control=%d when=%s storm=%d", s.G, s.Burst, s.Pause, s.Wait, s.Control, s.When, s.Storm)
+	return fmt.Sprintf("G=%d burst=%d pause=%v wait=%v control=%d when=%s storm=%d decreasing=%v", s.G, s.Burst, s.Pause, s.Wait, s.Control, s.When, s.Storm, s.Decreasing)
 }
 
 var (
@@ -103,6 +105,15 @@ func runScenario(sc scenario, judge bool) outcome {
 	var tIn time.Duration
 	var tIns []time.Duration
 	switch sc.When {
+	case "lost":
+		// retransmissions triggered by a routing-lost indication are transmissions
+		// too: the pause applies around and inside the resend batch
+		startSenders()
+		s.WaitTx(spec.SvcRoutingInd, 0, 2, 5*time.Second)
+		if _, expired := s.DeliverTimeout(&knxnet.RoutingLost{Count: uint16(1 + sc.G%3)}, 10*time.Second); expired && judge {
+			r.Violate("receive-loop.stuck", attrs, map[string]interface{}{"scenario": sig}, "[%s] the receive loop did not take a lost indication within 10 s", sig)
+		}
+		tIn = s.Now()
 	case "idle":
 		tIn = busy(sc.Wait, sc.Control)
 		tIns = append(tIns, tIn)
@@ -119,7 +130,11 @@ func runScenario(sc scenario, judge bool) outcome {
 		if sc.When == "storm" {
 			for i := 1; i < sc.Storm; i++ {
 				// the receive loop is blocked in its Lock while the previous busy holds; deliveries queue up behind it
-				go func() { s.Deliver(&knxnet.RoutingBusy{WaitTime: sc.Wait, Control: sc.Control}) }()
+				w2, c2 := sc.Wait, sc.Control
+				if sc.Decreasing {
+					w2, c2 = 0, 1 // a shorter announcement must not cut the first one short
+				}
+				go func() { s.Deliver(&knxnet.RoutingBusy{WaitTime: w2, Control: c2}) }()
 			}
 		}
 	}
@@ -145,7 +160,15 @@ func runScenario(sc scenario, judge bool) outcome {
 		}
 	}
 	atomic.AddInt64(&nTx, int64(len(tx)))
-	if len(tx) != total {
+	if sc.When == "lost" {
+		if len(tx) < total {
+			if judge {
+				r.Violate("send.count", attrs, map[string]interface{}{"scenario": sig}, "[%s] %d routing indications on the wire for %d Sends", sig, len(tx), total)
+			}
+			out.other = true
+			return out
+		}
+	} else if len(tx) != total {
 		if judge {
 			r.Violate("send.count", attrs, map[string]interface{}{"scenario": sig}, "[%s] %d routing indications on the wire for %d Sends", sig, len(tx), total)
 		}
@@ -163,6 +186,32 @@ func runScenario(sc scenario, judge bool) outcome {
 			out.other = true
 			return out
 		}
+	}
+	if sc.When == "lost" {
+		// wait for the resend batch to finish, then re-check the pacing over everything
+		time.Sleep(time.Duration(4)*sc.Pause + 2*time.Millisecond)
+		var all []time.Duration
+		for _, e := range s.Log() {
+			if e.Kind == memsock.Tx && !e.Err && e.P.Service == spec.SvcRoutingInd {
+				all = append(all, e.T)
+			}
+		}
+		for i := 1; i < len(all); i++ {
+			if all[i]-all[i-1]+20*time.Microsecond < sc.Pause {
+				if judge {
+					r.Violate("pacing.gap", attrs, map[string]interface{}{"scenario": sig, "gap_us": float64(all[i]-all[i-1]) / 1e3, "index": i},
+						"[%s] transmissions #%d and #%d (around a retransmission batch) are %v apart, closer than the post-send pause %v", sig, i-1, i, all[i]-all[i-1], sc.Pause)
+				}
+				out.other = true
+				return out
+			}
+		}
+		if judge {
+			atomic.AddInt64(&nScen, 1)
+			r.Eval(1)
+			r.DistinctStr(sig)
+		}
+		return out
 	}
 	// (2) busy back-off
 	w := sc.Wait
@@ -208,6 +257,9 @@ func runScenario(sc scenario, judge bool) outcome {
 			}
 			// (3) resumption: the silence ends no later than the 50 ms cap (+ pause + slack)
 			capd := 50*time.Millisecond*time.Duration(sc.Storm+1) + sc.Pause
+			if sc.Decreasing {
+				capd = 50*time.Millisecond + sc.Pause*time.Duration(sc.Storm+1)
+			}
 			if sil > capd+3*stall+20*time.Millisecond && stall < 250*time.Millisecond {
 				if judge {
 					r.Violate("busy.resume-late", attrs, map[string]interface{}{"scenario": sig, "silence_ms": float64(sil) / 1e6}, "[%s] transmission resumed only %v after the last straggler (cap 50 ms per busy indication, %d indications)", sig, sil, sc.Storm+1)
@@ -268,15 +320,22 @@ func run(rr *mon.Run) {
 	rng := rand.New(rand.NewSource(r.Seed()*4447 + 7))
 	pauses := []time.Duration{0, 2 * time.Millisecond, 5 * time.Millisecond, 20 * time.Millisecond}
 	waits := []time.Duration{0, time.Millisecond, 10 * time.Millisecond, 30 * time.Millisecond, 50 * time.Millisecond, 100 * time.Millisecond, 500 * time.Millisecond}
-	whens := []string{"idle", "mid", "storm", "mid"}
-	n := r.Pick(48, 1600)
-	for i := 0; i < n; i++ {
-		sc := scenario{G: 1 + rng.Intn(8), Pause: pauses[i%4], Wait: waits[(i/4)%7], Control: uint16(i % 2), When: whens[(i/3)%4], Seed: r.Seed()*100000 + int64(i)}
+	whens := []string{"idle", "mid", "storm", "mid", "lost", "storm"}
+	n := r.Pick(72, 2400)
+	for i := 0; i < n && !r.Enough(); i++ {
+		sc := scenario{G: 1 + rng.Intn(8), Pause: pauses[i%4], Wait: waits[(i/4)%7], Control: uint16(i % 2), When: whens[(i/3)%6], Seed: r.Seed()*100000 + int64(i)}
 		if i%9 == 0 {
 			sc.G = 8
 		}
 		if sc.When == "storm" {
 			sc.Storm = 2 + rng.Intn(4)
+			sc.Decreasing = (i/3)%6 == 5
+			if sc.Decreasing {
+				sc.Control = 1 // no random extra: the first announcement alone gives the bound
+			}
+		}
+		if sc.When == "lost" && sc.Pause == 0 {
+			sc.Pause = 5 * time.Millisecond
 		}
 		// enough messages to stay saturated through the silence, few enough to finish soon
 		switch {
